@@ -2,10 +2,10 @@
 CONSTANTS
   Orig = {}
   PoolSizes = {0, 1, 2, 3}
-  Lens = {0, 1, 2, 3, 5, 8}
+  Lens = {0, 1, 3, 8}
   Modes = {"static", "auto", "chunk"}
   Chunks = {1, 2, 3}
-  MaxThreads = {0, 1, 2, 3, 5}
+  MaxThreads = {0, 1, 2, 3}
   Waits = {TRUE, FALSE}
   Grans = {1, 2, 3}
   MinItems = {1, 2}
